@@ -96,15 +96,18 @@ theorem DedStruct.encField_ok (h : DedStruct S T g fa r name d E vs) {f : Field}
         cases key with
         | none => exact ⟨b, hb⟩
         | some k =>
-          -- a keyed array is a counted array: `deserialize` checked the order of the keys
+          -- a keyed array is a counted or a fill array: `deserialize` checked the order of the keys
           unfold wfdKind at hwk
           simp only [hk, Option.isNone_some, Bool.false_or] at hwk
           cases mode with
           | count cf =>
-            obtain ⟨n, -, -, hkeys⟩ := hcnt cf rfl
+            obtain ⟨n, -, -, hkeys⟩ := hcnt.1 cf rfl
             obtain ⟨keys, hks, hasc⟩ := hkeys k rfl
             exact ⟨b, by simp [hks, hasc, hb, bind, Except.bind]⟩
-          | _ => simp at hwk
+          | fill =>
+            obtain ⟨keys, hks, hasc⟩ := hcnt.2 rfl rfl k rfl
+            exact ⟨b, by simp [hks, hasc, hb, bind, Except.bind]⟩
+          | sized sf => simp at hwk
       · have hal' : (al != 0) = true := by simp [hal]
         simp only [hal', if_true]
         exact encArrayAligned_ok r elem al pl l (fun e he => by
